@@ -53,6 +53,7 @@ _TLAPS = {
     "ColexNumeric": " Unbounded (TLAPS, spec/tlaps/ColexNumeric.tla, thorough tier): colexicographic order = numeric order of the packed integers and packing is injective, for any base and length.",
     "EditLaws": " Unbounded (TLAPS, spec/tlaps/EditLaws.tla): an insertion moves nothing before it and shifts the rest by the argument's length; remove-what-was-inserted, reinsert-what-was-removed and truncate-after-push restore the sequence, for any length.",
     "SetAlgebraLaws": " Unbounded (TLAPS, spec/tlaps/SetAlgebraLaws.tla): with positions read as sets, a|b contains both operands, both contain a&b, contains is a partial order and equals x|y = x and x&y = y, for any length and alphabet.",
+    "KmerLaws": " Unbounded (TLAPS, spec/tlaps/KmerLaws.tla): a push drops exactly one symbol from the other end, pushing the dropped symbol back restores the k-mer, rotation by one is a push and the two rotations undo each other, the canonical form is strand independent for any involution, for any K and alphabet.",
     "TableFoldProof": " Unbounded (TLAPS, spec/tlaps/TableFoldProof.tla): the folded inverse map is a function of the forward map alone, for any sets of codons and amino acids.",
 }
 LEVEL_TEXT["C02"] += (" One listed known finding (known_findings.json D12: sequences that store an alternative bit pattern compare and hash by stored bits) "
